@@ -56,12 +56,13 @@ def leaf_catalogue(tier='quick'):
     add('ENUM_129', lambda: Type('ENUMERATED', root=[('ez', 0), ('em', 127), ('en', 128), ('eo', 129), ('eneg', -129)]))
     sizes = [('', None), ('_S0', Cons(0, 0)), ('_S1', Cons(1, 1)), ('_S2', Cons(2, 2)), ('_S3', Cons(3, 3)), ('_S8', Cons(8, 8)),
              ('_S16', Cons(16, 16)), ('_S17', Cons(17, 17)), ('_S1_4', Cons(1, 4)), ('_S4ext', Cons(4, 4, True)),
-             ('_S0_65535', Cons(0, 65535)), ('_S0_MAX', Cons(0, None)), ('_S1_4ext', Cons(1, 4, True)), ('_S0_300', Cons(0, 300))]
+             ('_S0_65535', Cons(0, 65535)), ('_S0_MAX', Cons(0, None)), ('_S1_4ext', Cons(1, 4, True)), ('_S0_300', Cons(0, 300)), ('_S1_5', Cons(1, 5))]
     for s, c in sizes:
         add('BITS' + s, (lambda c=c: Type('BIT STRING', size=copy.copy(c))))
         add('OCTS' + s, (lambda c=c: Type('OCTET STRING', size=copy.copy(c))))
     add('BITS_named', lambda: Type('BIT STRING', named=[('b0', 0), ('b3', 3), ('b9', 9)]))
-    strsizes = [('', None), ('_S2', Cons(2, 2)), ('_S1_4', Cons(1, 4)), ('_S1_4ext', Cons(1, 4, True)), ('_S0_300', Cons(0, 300))]
+    # _S1_5: a span that is not a power of two leaves spare code points in the PER length field
+    strsizes = [('', None), ('_S2', Cons(2, 2)), ('_S1_4', Cons(1, 4)), ('_S1_4ext', Cons(1, 4, True)), ('_S0_300', Cons(0, 300)), ('_S1_5', Cons(1, 5))]
     for k in ('IA5String', 'VisibleString', 'PrintableString', 'NumericString', 'BMPString', 'UniversalString'):
         for s, c in strsizes:
             add(k + s, (lambda k=k, c=c: Type(k, size=copy.copy(c))))
@@ -87,6 +88,9 @@ CORE = ['BOOLEAN', 'INT', 'INT_0_7', 'OCTS', 'IA5String_S1_4', 'ENUM_ext_adds']
 DEFAULTABLE = {'BOOLEAN': True, 'INT': 7, 'INT_0_7': 3, 'INT_0_255': 200, 'INT_m128_127': -1, 'INT_0_7_ext': 5, 'ENUM3': 1, 'ENUM_ext_adds': 1,
                'IA5String_S1_4': 'hi', 'IA5String': 'dflt', 'INT_s32': -2147483648, 'INT_u32': 4294967295, 'UTF8String': 'x', 'INT_named': 2,
                'NULL': None}
+
+MORE_DEFAULTS = {'INT': [0, -1, 127, 128, 255, 256, -128, -129, 32767, 32768, 65535, -32768, -32769], 'INT_0_MAX': [0, 128, 255, 65535],
+                 'INT_0_7_ext': [0, 7], 'INT_s32': [0, 2147483647], 'INT_u32': [0, 2147483648]}
 
 
 def leaf(label, cat=None):
@@ -206,6 +210,12 @@ def cases(tier='quick', families=None):
                     c = Case('S1', '%s/%s/%s/%s/%s' % (lab, kind, role, td, _tm(tm)), td, _container_with(role, kind, catd[lab](), lab, tm, dflt))
                     if c.main is not None and _legal(c):
                         out.append(c)
+                    if role == 'default' and lab in MORE_DEFAULTS and (tier != 'quick' or kind == 'SEQUENCE') and td == 'AUTOMATIC':
+                        # DEFAULT values at the boundaries where the number of content octets / the sign octet changes
+                        for dv in MORE_DEFAULTS[lab]:
+                            c = Case('S1', '%s/%s/default=%s/%s/%s' % (lab, kind, dv, td, _tm(tm)), td, _container_with(role, kind, catd[lab](), lab, tm, dv))
+                            if c.main is not None and _legal(c):
+                                out.append(c)
     # ---- S2: container in container
     if fam('S2'):
         modes = ['AUTOMATIC'] if tier == 'quick' else ['AUTOMATIC', 'EXPLICIT', 'IMPLICIT']
